@@ -136,7 +136,8 @@ def scan_wiring(repo):
         t = re.sub(r"\s+", "", text(doc, ms[0]["start"], ms[0]["end"]))
         m = re.match(r"impl_deserialize_body!\((.*),(%s)\);?$" % re.escape(beh), t)
         if not m:
-            return False, "%s instantiates impl_deserialize_body! with %s, expected behaviour %s" % (f, t, beh)
+            decisive = beh.startswith("UnknownFieldsBehavior") and re.match(r"impl_deserialize_body!\((.*),ValueBehavior\);?$", t) is not None
+            return False, "%s instantiates impl_deserialize_body! with %s, expected behaviour %s" % (f, t, beh), decisive
         out.append("%s: %s" % (f, beh))
     return True, "; ".join(out)
 
